@@ -262,10 +262,16 @@ func (p *Program) computeRoots() {
 	// except that closures passed to non-module code (sort.Search, strings.Map) are found through the graph edges
 	// from those library functions back into the module).
 	reach := map[*ssa.Function]bool{}
+	deferred := map[*ssa.Function]bool{} // closures seen as callees while their creating function was not yet reachable
 	var visit func(fn *ssa.Function, depthOutside int)
 	visit = func(fn *ssa.Function, depthOutside int) {
 		if p.InModule(fn) {
 			if reach[fn] {
+				return
+			}
+			if par := fn.Parent(); par != nil && !reach[par] {
+				// VTA is context-insensitive: a closure is only live if the function creating it is.
+				deferred[fn] = true
 				return
 			}
 			reach[fn] = true
@@ -284,7 +290,6 @@ func (p *Program) computeRoots() {
 			if p.InModule(callee) {
 				visit(callee, 0)
 			} else if p.InModule(fn) {
-				// one hop into the library only when a module closure/func value is passed
 				if passesModuleFunc(e.Site) {
 					visit(callee, depthOutside+1)
 				}
@@ -292,10 +297,19 @@ func (p *Program) computeRoots() {
 				visit(callee, depthOutside+1)
 			}
 		}
-		// closures created by a reachable function are reachable candidates only if called; VTA handles that.
 	}
 	for _, r := range roots {
 		visit(r, 0)
+	}
+	for changed := true; changed; {
+		changed = false
+		for fn := range deferred {
+			if !reach[fn] && reach[fn.Parent()] {
+				delete(deferred, fn)
+				visit(fn, 0)
+				changed = true
+			}
+		}
 	}
 	p.reachable = reach
 }
